@@ -6,6 +6,7 @@ registered check.
 
   par_matrix.py seeded [ids...]   each seeded change against the check of its own property   -> work/matrix_par.txt
   par_matrix.py benign [ids...]   each benign change against ALL 18 checks                    -> work/benign_matrix.txt
+  par_matrix.py thorough [props]  the UNCHANGED tree, thorough tier, every check                -> work/thorough_sweep.txt
 """
 import json, os, re, shutil, subprocess, sys, threading, queue, time
 
@@ -39,9 +40,12 @@ def drop_slot(i):
     shutil.rmtree(root, ignore_errors=True)
 
 
+TIER = "quick"
+
+
 def run_check(root, prop):
     env = dict(os.environ, VERIF_REPO=root + "/repo", CARGO_NET_OFFLINE="true")
-    p = sh([root + "/verif/bin/check", prop, "--tier", "quick"], env=env, cwd=root + "/verif")
+    p = sh([root + "/verif/bin/check", prop, "--tier", TIER], env=env, cwd=root + "/verif")
     out = p.stdout.decode(errors="replace")
     v = [l for l in out.splitlines() if l.startswith("VIOLATION")]
     nb = sum(1 for l in out.splitlines() if l.startswith("BROKEN"))
@@ -73,7 +77,7 @@ def worker(i, jobs, results, lock):
         except queue.Empty:
             break
         sh(["git", "-C", root + "/repo", "checkout", "--", "."])
-        a = sh(["git", "-C", root + "/repo", "apply", patch])
+        a = sh(["git", "-C", root + "/repo", "apply", patch]) if patch else sh(["true"])
         if a.returncode != 0:
             with lock:
                 results[name] = {"error": "patch does not apply: " + a.stdout.decode()[-200:]}
@@ -92,7 +96,14 @@ def main():
     kind = sys.argv[1]
     ids = sys.argv[2:]
     jobs = queue.Queue()
-    if kind == "seeded":
+    global TIER
+    if kind == "thorough":
+        # the unchanged tree, thorough tier, one job per property (a sanity sweep: every check must exit 0)
+        TIER = "thorough"
+        for p in (ids or PROPS):
+            jobs.put(("unchanged_" + p, None, [p]))
+        out = VERIF + "/work/thorough_sweep.txt"
+    elif kind == "seeded":
         all_ids = sorted(d for d in os.listdir(VERIF + "/seeded") if os.path.exists(VERIF + "/seeded/%s/patch.diff" % d))
         for d in (ids or all_ids):
             jobs.put((d, VERIF + "/seeded/%s/patch.diff" % d, [d[:3]]))
@@ -115,6 +126,9 @@ def main():
             r = results[name]
             if "error" in r:
                 f.write("%s %s\n" % (name, r["error"]))
+            elif kind == "thorough":
+                p = name[-3:]
+                f.write("%s: %s rc=%d %s\n" % (name, r[p][0], r[p][3], r[p][4]))
             elif kind == "seeded":
                 p = name[:3]
                 tag, nb, summary, rc, v = r[p]
